@@ -49,6 +49,33 @@ CHECKS = {
     ),
 }
 
+ARENA_NOTE = ("grammars come from the harness's generator (bounded size/depth); the arena's lexer, Token enum and ParserCallbacks impl are derived "
+              "mechanically from the grammar model and the emitted trait; shapes with a recorded defect live in labelled buckets (known_findings.jsonl)")
+ARENA = {
+    "C01": ("runtime monitoring: online tree walker inside the compiled generated parser (children/get/span only) compared with the lexer's token/span sequence on every parse of the arena campaign",
+            "Every parse of the campaign (random accepted grammars x sentences, prefixes, mutants, garbage, long runs, trivia variants, PRNG-drawn predicate/assertion outcomes, every part entry) is walked online; a token missing, duplicated, out of order or with another span, a node outside the token table, or a panic in span/Display is a violation."),
+    "C02": ("runtime monitoring: online structural checker of every returned tree + create_node_* callback monitor (announced kind, complete subtree) in the compiled generated parser",
+            "Every returned tree is checked for strictly increasing child refs, disjoint sibling extents, nested and ordered child spans, o..o spans of empty nodes and no leading/trailing skipped token in non-root nodes; every node-created callback dumps the announced subtree at that moment and it must be found unchanged in the final tree."),
+    "C03": ("runtime monitoring: panic monitor + logical livelock/recursion probes inserted in a twin of the emitted parser (one loop activation 64x at one position; 20000 rule entries at one position; cursor beyond input) + process-death detection, on hostile inputs incl. runs of 4096 tokens and every prefix of sentences",
+            "Every parse must return: a caught panic, a loop activation that iterates 64 times without consuming, unbounded rule entries at one position, a cursor beyond the input or a dead arena process is a violation; a watchdog expiry without such a logical verdict is inconclusive."),
+    "C04": ("runtime monitoring: differential oracle (independent Earley recogniser / value-semantics reference interpreter on the harness's grammar model) on the diagnostics of the compiled generated parser",
+            "For grammars without user predicates/assertions and inputs up to 16 tokens (sentences, prefixes, single-edit mutants, random and exhaustive short strings, with trivia variants, start rule and parts) the diagnostic list is empty iff the reference says the input is a sentence."),
+    "C05": ("runtime monitoring: differential oracle (reference interpreter computing the derivation tree with rename/elision/marker-creation applied and the action order) on the tree and action_* trace of the compiled generated parser",
+            "For every sentence (<= 16 tokens) the trivia-free tree dump equals the reference derivation tree with node operators applied, and the action callbacks fire in derivation order."),
+    "C06": ("runtime monitoring: viable-prefix oracle (Earley) on the first syntax diagnostic + ordering/range monitor on all diagnostics of the compiled generated parser",
+            "For backtracking-free grammars without predicates/assertions the first syntax diagnostic must sit on the token at the Earley viable-prefix index (or len..len); syntax diagnostics must be strictly increasing and every span inside the source."),
+    "C07": ("runtime monitoring: precedence-climbing reference (cross-checked by exhaustive enumeration of binary trees against the declarative rule) vs. the tree the compiled Pratt parser returns for operator expressions",
+            "Random Pratt grammars (1-5 recursive branches, infix/prefix/postfix, 1-3 operator tokens, random right declarations) x all operator sequences up to length 3 and random expressions up to 6 operators: the tree equals the reference grouping."),
+    "C08": ("runtime monitoring: snapshot/restore probes in a twin of the emitted parser (tree debug string, position, diagnostics, active error state), created/deleted callback pairing, action-in-attempt monitor, and a differential run against the same parser with the abandoned attempts switched off",
+            "After every restore the full parser-visible state equals the snapshot; created minus deleted callbacks equals the rule nodes of the final tree; no action runs in an undoable attempt; and for every choice site whose dynamic instances all took alternative k, the same emitted parser with the earlier attempts disabled gives the same tree, diagnostics and actions."),
+    "C11": ("runtime monitoring: the real llw (exit status, files written) + rustc on the emitted parser inside a mechanically derived impl, per generated grammar; graph output run on accepted grammars",
+            "Every grammar of the campaign goes through the real llw; exit 0 must give a generated.rs that rustc accepts, exit 1 must leave no parser file, any other exit is a crash."),
+    "C16": ("runtime monitoring: metamorphic oracle (same input with skipped/Error tokens inserted) on tree and diagnostics + online peek/peek_left monitor inside predicate callbacks",
+            "For every input w and variants w' with skipped and Error tokens inserted (every gap / random / ends) the trivia-free trees and the diagnostics (as token-index sequences) are equal; every predicate call sees peek(k)/peek_left(k) equal to the k-th non-skipped token from the cursor."),
+}
+for _pid, (_tech, _text) in ARENA.items():
+    CHECKS[_pid] = dict(technique=_tech, text=_text, note=ARENA_NOTE, design="§3 " + _pid + ", §8")
+
 NOT_YET = "check not built yet in this round; design in DESIGN.md §3, build order §7"
 
 
